@@ -365,11 +365,58 @@ FILTER_ALLOWED = {
 }
 
 
+REDUCERS = re.compile(r'Iterator>?::(count|any|all|position|rposition|sum|product|min|max|min_by_key|max_by_key|is_sorted)$|ExactSizeIterator>?::len$')
+PASS_ADAPTORS = re.compile(r'Iterator>?::(map|rev|enumerate|peekable|by_ref|copied|cloned|filter|filter_map|skip_while|take_while|skip|take|step_by|map_while|inspect|chain|zip)$')
+
+
+def _only_reduced(b, t, depth=0):
+    """the iterator this adaptor call returns is consumed by a pure reducer (count / any / all / position / sum ..), possibly through further adaptors:
+    a decision is computed from it, no element of it reaches an emitting loop"""
+    from mirfacts import callee_path
+    if t['dest']['proj'] or depth > 5:
+        return False
+    d = t['dest']['l']
+    uses = []
+    for blk in b.blocks:
+        if blk['cleanup']:
+            continue
+        for st in blk['stmts']:
+            if st['s'] == 'assign' and _mentions_local(st['rv'], d):
+                uses.append(('stmt', st))
+        tt = blk['term']
+        if tt['t'] == 'call' and any(a.get('o') in ('move', 'copy') and a['p']['l'] == d for a in tt['args']):
+            uses.append(('call', tt))
+        elif tt['t'] not in ('call', 'drop') and _mentions_local(tt, d):
+            uses.append(('term', tt))
+    if len(uses) != 1 or uses[0][0] != 'call':
+        return False
+    ut = uses[0][1]
+    p = callee_path(ut) or ''
+    if not (ut['args'] and ut['args'][0].get('o') in ('move', 'copy') and ut['args'][0]['p']['l'] == d):
+        return False
+    if REDUCERS.search(p):
+        return True
+    if PASS_ADAPTORS.search(p):
+        return _only_reduced(b, ut, depth + 1)
+    return False
+
+
+def _mentions_local(x, l):
+    if isinstance(x, dict):
+        if 'l' in x and 'proj' in x and isinstance(x['l'], int):
+            return x['l'] == l
+        return any(_mentions_local(v, l) for k, v in x.items() if k not in ('span', 'ty', 'callee', 'fn_span'))
+    if isinstance(x, list):
+        return any(_mentions_local(v, l) for v in x)
+    return False
+
+
 def filter_obligations(w):
     """[(ok, construct, key, why, loc)] for every element-dropping adaptor over syntax nodes in the printer"""
     from mirfacts import callee_path
     out = []
     seen = {}
+    decisions = []
     for b in w.fn_bodies(w.core):
         if not (b.short.startswith('pretty::') or b.short.startswith('partial::')):
             continue
@@ -384,7 +431,12 @@ def filter_obligations(w):
                 re.sub(r'^.*\{impl#\d+\}::', '', b.short).split('::', 0)[0]
             fn = re.sub(r'^pretty::\w+::', '', fn)
             ad = p.rsplit('::', 1)[-1]
+            if _only_reduced(b, t):
+                decisions.append((b, t, ad))
+                continue
             seen.setdefault((fn, ad), []).append((b, t))
+    for b, t, ad in decisions:
+        out.append((True, {'fn': b.short, 'adaptor': ad, 'line_hint': t['span']['line']}, 'filter|decision', 'the filtered iterator is only counted / tested (a decision; nothing is printed from it)', b.loc(t['span'])))
     for (fn, ad), insts in sorted(seen.items()):
         allowed = FILTER_ALLOWED.get((fn, ad))
         for n, (b, t) in enumerate(insts):
